@@ -437,7 +437,7 @@ func checkManifestLast(r *Run, p *packages.Package, cg *CallGraph, decls map[str
 	info := p.TypesInfo
 	dump := decls["Dump"]
 	// callers of writeManifest among functions reachable from Dump
-	wm := cg.Func(modPath+"/retriever."+roleName("writeManifest"))
+	wm := cg.Func(modPath + "/retriever." + roleName("writeManifest"))
 	if wm == nil || dump == nil {
 		r.Undecide("C19-R4: writeManifest / Dump not found")
 		return
@@ -657,7 +657,7 @@ func checkResumeGate(r *Run, p *packages.Package, cg *CallGraph, decls map[strin
 		r.Fail("C19-R5-resume-gate", "loadCompatibleDumpCheckpoint:identity", fd.Pos(), "the resume loader does not refuse a checkpoint written with different options")
 	}
 	// the only readers of the checkpoint file
-	rd := cg.Func(modPath+"/retriever."+roleName("readDumpCheckpoint"))
+	rd := cg.Func(modPath + "/retriever." + roleName("readDumpCheckpoint"))
 	if rd != nil {
 		for _, e := range cg.In[rd] {
 			if e.From.Name() == roleName("loadCompatibleDumpCheckpoint") {
